@@ -1471,7 +1471,11 @@ func (r *runningStep) closedEarly(stageToMarkUnresolvable StageID, priorStageFai
 	} else {
 		r.transitionRunningStage(StageIDClosed)
 	}
-	closedOutput := any(map[any]any{"cancelled": r.cancelled, "close_requested": r.closed.Load()})
+	// The cancelled flag is written under the step lock when a stop condition arrives.
+	r.lock.Lock()
+	cancelled := r.cancelled
+	r.lock.Unlock()
+	closedOutput := any(map[any]any{"cancelled": cancelled, "close_requested": r.closed.Load()})
 
 	r.completeStep(
 		StageIDClosed,
